@@ -25,7 +25,7 @@ func (eng) Rule() string {
 		"handler names; histories of 6-14 mutations over arbitrary subsets. Each history runs without vetoes, then once per negotiation " +
 		"position (binding, handler name) that fired with a veto there. Per transition the handler log is judged: phase order, " +
 		"After/Require order inside each phase list, negotiation handlers see states-before, final handlers see the applied target, " +
-		"nothing after a veto, finals exactly once per changed state per binding and never for canceled transitions. Evaluation = one " +
+		"nothing after a veto, every Exit/Enter/self/AnyEnter negotiation handler of an unvetoed accepted transition exactly once in the all-names binding, finals exactly once per changed state per binding and never for canceled transitions. Evaluation = one " +
 		"transition with >=1 handler call; distinct non-trivial = distinct (schema, bindings, veto, history prefix)."
 }
 func (eng) Assumptions() []string {
@@ -163,6 +163,51 @@ func run(res *core.CaseResult, spec gen.SchemaSpec, binds []binding, v veto, his
 			if !rec.TimeEq(tx.Before, tx.After) {
 				res.Violate("C05/ticks-after-veto", "ticks changed although a negotiation handler returned false", ctx())
 			}
+		}
+		// negotiation handlers of an unvetoed transition: binding 0 binds every
+		// name, so each expected one has to be in its log
+		anyFalse := false
+		for _, c := range cs {
+			if rec.IsNegotiation(c.Name) && !c.Ret {
+				anyFalse = true
+			}
+		}
+		if !anyFalse && tx.Accepted && !tx.IsAuto && !tx.Broken && len(binds) > 0 && binds[0].prefix == "" {
+			got := map[string]int{}
+			for _, c := range cs {
+				if c.Binding == 0 && rec.IsNegotiation(c.Name) {
+					got[c.Name]++
+				}
+			}
+			var want []string
+			for _, s := range tx.Exits {
+				want = append(want, s+"Exit")
+			}
+			for _, s := range tx.Enters {
+				want = append(want, s+"Enter")
+			}
+			if tx.Type != "remove" {
+				for _, s := range tx.Target {
+					if slices.Contains(tx.StatesBef, s) {
+						want = append(want, s+s)
+					}
+				}
+			}
+			want = append(want, "AnyEnter")
+			for _, hn := range want {
+				if !slices.Contains(binds[0].names, hn) {
+					continue
+				}
+				if got[hn] != 1 {
+					kind := rec.HandlerKind(hn)
+					if kind == "pair" {
+						kind = "self"
+					}
+					res.Violate("C05/negotiation-count/"+kind, fmt.Sprintf("negotiation handler %s of binding 0 ran %d times in an unvetoed accepted transition (exits %v, enters %v, target %v, active before %v)",
+						hn, got[hn], tx.Exits, tx.Enters, tx.Target, tx.StatesBef), ctx())
+				}
+			}
+			res.Count("negotiation_sets_checked", 1)
 		}
 		// finals
 		finals := map[string]int{}
